@@ -55,7 +55,7 @@ REAL_COMPONENTS = ["every persim public entry point (working tree)", "matplotlib
 STUB_COMPONENTS = []
 ENV = ("none", "none", "none", "pyplot-new-figure", "pyplot-switch", "warn-filter", "rng-consume", "rng-reseed")
 FILTERS = ("default", "always", "once", "ignore")
-REPS = ("f64", "f64", "list", "i64", "ilist", "f32", "u8")
+REPS = ("f64", "f64", "list", "i64", "ilist", "f32", "u8", "view", "fortran", "f16", "i32", "u16")
 
 
 def reset_world():
@@ -200,9 +200,9 @@ def gen_case(rng, tier):
             alt = copy.deepcopy(spec["rep"])
             for key in alt:
                 if isinstance(alt[key], list):
-                    alt[key] = [rng.choice(("f64", "i64", "list", "ilist", "u8")) for _ in alt[key]]
+                    alt[key] = [rng.choice(("f64", "i64", "list", "ilist", "u8", "view", "fortran", "i32", "u16")) for _ in alt[key]]
                 else:
-                    alt[key] = rng.choice(("f64", "i64", "list", "ilist", "u8"))
+                    alt[key] = rng.choice(("f64", "i64", "list", "ilist", "u8", "view", "fortran", "i32", "u16"))
             op["alt_rep"] = alt
         ops.append(op)
     return {"inputs": {"fixtures": fx, "clients": K}, "ops": ops,
@@ -396,14 +396,14 @@ def run_case(case, sched):
             if spec["fn"] == "persistent_entropy" and alt:
                 # documented input: ndarray or *list of* ndarrays; a nested list is taken for a list of
                 # diagrams and only slips through by accident -> representation independence among arrays only
-                alt = {k_: [x if x in ("f64", "i64", "u8") else "f64" for x in v] for k_, v in alt.items()}
+                alt = {k_: [x if x in ("f64", "i64", "u8", "view", "fortran", "i32", "u16") else "f64" for x in v] for k_, v in alt.items()}
                 if any(x == "list" for x in (spec.get("rep") or {}).get("ds", [])):
                     alt = None
             if alt and out[0] == "ok" and spec["fn"] != "obj":
                 sp2 = copy.deepcopy(spec)
                 sp2["rep"] = alt
                 base_reps = set(rep_tag(spec).split("+"))
-                if "f32" not in base_reps:
+                if not ({"f32", "f16"} & base_reps):          # narrow floats are different values
                     out2 = execute(sp2, "alternative representation")
                     if out2[0] == "ok":
                         stats["alt_rep_compared"] += 1
